@@ -102,12 +102,25 @@ func (env *Env) load(lv *LV) SV {
 		out := SV{Typ: lv.Typ}
 		for _, l := range sh.Leaves {
 			col, s, two := env.vc.lvLeafCol(lv, l)
+			env.vc.refColumn(col, s, l)
 			h := env.vc.colGet(env.st, col, s)
 			if two {
-				out.T = append(out.T, mkSel(mkSel(h, lv.Ref), lv.Idx))
+				out.T = append(out.T, env.vc.readCol(h, lv.Ref, lv.Idx, 0))
 			} else {
-				out.T = append(out.T, mkSel(h, lv.Ref))
+				out.T = append(out.T, env.vc.readCol(h, lv.Ref, "", 0))
 			}
+		}
+		// ground reads (no bound variable in the address) still get their type facts
+		ground := true
+		for _, t := range out.T {
+			for _, b := range env.bound {
+				if strings.Contains(t, b) {
+					ground = false
+				}
+			}
+		}
+		if ground {
+			env.vc.assert(env.vc.wf(out, env.st.alloc))
 		}
 		return out
 	}
@@ -642,6 +655,15 @@ func (env *Env) evalCall(x *ECall) SV {
 	case "chanClosed":
 		argn(1)
 		return mathBool(env.fc.ghostGet(env.st, "chanClosed", SBool, env.eval(x.Args[0]).one()))
+	case "sliceOf":
+		// sliceOf(arr, off, len, ElemType): the slice with that header (ghost-captured identity)
+		argn(4)
+		T := env.typeArg(x.Args[3])
+		if T == nil {
+			env.fail("sliceOf: unknown element type in %s", exprString(x))
+		}
+		ln := env.evalInt(x.Args[2])
+		return SV{Typ: types.NewSlice(T), T: []Term{env.evalInt(x.Args[0]), env.evalInt(x.Args[1]), ln, ln}}
 	case "rangekey":
 		// rangekey(k): the k-th key of the (single) map range loop of this function
 		argn(1)
